@@ -101,12 +101,18 @@ int uv_async_send(uv_async_t* handle) {
   if (atomic_load_explicit(pending, memory_order_relaxed) != 0)
     return 0;
 
+  UV__VERIF_POINT(1);
+
   /* Set the loop to busy. */
   atomic_fetch_add(busy, 1);
+
+  UV__VERIF_POINT(2);
 
   /* Wake up the other thread's event loop. */
   if (atomic_exchange(pending, 1) == 0)
     uv__async_send(handle->loop);
+
+  UV__VERIF_POINT(3);
 
   /* Set the loop to not-busy. */
   atomic_fetch_add(busy, -1);
@@ -134,6 +140,8 @@ static void uv__async_spin(uv_async_t* handle) {
      * nature, and should therefore hopefully dampen sympathetic resonance.
      */
     for (i = 0; i < 997; i++) {
+      UV__VERIF_POINT(4);
+
       if (atomic_load(busy) == 0)
         return;
 
@@ -197,6 +205,8 @@ static void uv__async_io(uv_loop_t* loop, uv__io_t* w, unsigned int events) {
     uv__queue_remove(q);
     uv__queue_insert_tail(&loop->async_handles, q);
 
+    UV__VERIF_POINT(5);
+
     /* Atomically fetch and clear pending flag */
     pending = (_Atomic int*) &h->pending;
     if (atomic_exchange(pending, 0) == 0)
@@ -204,6 +214,8 @@ static void uv__async_io(uv_loop_t* loop, uv__io_t* w, unsigned int events) {
 
     if (h->async_cb == NULL)
       continue;
+
+    UV__VERIF_POINT(6);
 
     h->async_cb(h);
   }
